@@ -14,11 +14,15 @@ EXPLANATION = (
     "MyPyAstVisitor._is_public (re-export lookup stubbed to 'not re-exported') is decided against the statement's "
     "predicate - public <=> not (leading underscore and not a dunder name) and every enclosing segment public - for a "
     "module-level declaration, a class member and a constructor-assigned attribute, over symbolic names and path "
-    "segments. Engine C: over the C03 model grammar, no declaration with a false publicity chain occurs in any output file."
+    "segments. Engine C: over the C03 model grammar, no declaration with a false publicity chain occurs in any output file; "
+    "(reexports) the real _is_public + _check_publicity_in_reexports + _add_reexports on a declaration "
+    "pkg.sub_a.<m|_m|xm>.<f|_f> with imports of every form (name, alias, private alias, star, module, module alias, "
+    "absolute name) written in the package's or the root's __init__, against a one-directional oracle: private and not "
+    "re-exported => private; re-exported under a public name => public."
 )
 ASSUMPTIONS = [
-    "K: _check_publicity_in_reexports is stubbed to return None (no re-export); the re-export logic itself is not "
-    "covered in this round",
+    "K: _check_publicity_in_reexports is stubbed to return None (no re-export); the re-export logic is covered by the "
+    "CrossHair harness 'reexports' over name pools with look-alikes (m/_m/xm, f/_f/xf), 1 import (thorough: 2)",
     "K: a class's is_public flag is assumed consistent with its path (no re-export), which is what the same function "
     "establishes for the class one level up (inductive use)",
     "C: generator side; the is_public fields of the API JSON are covered only through the K query on _is_public",
@@ -27,8 +31,7 @@ BOUNDS = {"quick": "K: identifiers <= 5 per segment, 3 segments; C: as C03 quick
 MANIFEST = {
     "text": "Bounded symbolic: the publicity predicate is decided by z3 over an AST-derived encoding for every name and "
             "path within the bound; absence of private declarations from the output by CrossHair partitions.",
-    "note": "Trusted: z3/CrossHair, translator validated against the real method each run. Not covered: publicity "
-            "through re-exports (_check_publicity_in_reexports). Known findings: '_x__' classified public; enums "
+    "note": "Trusted: z3/CrossHair, translator validated against the real method each run. Known findings: '_x__' classified public; enums "
             "emitted without publicity test.",
     "technique": "AST->SMT encoding of the publicity predicate decided by z3 + CrossHair symbolic execution of the generator",
 }
@@ -43,4 +46,7 @@ def plan(tier):
         K("k_public", "kjobs.c04", "publicity_decision", "_is_public vs the statement's predicate", timeout=1800),
         CH("no_leak", "harness.c03", "no_leak", parts, timeout=t, desc="no private declaration in any stub",
            stubs=["in-memory FS"], symbolic="publicity/shape flags"),
+        CH("reexports", "harness.c04", "reexports", [f"0:{m},1:{n}" for m in range(3) for n in range(2)], timeout=t,
+           desc="publicity through re-exports: private stays private unless re-exported; re-exported under a public name is public",
+           stubs=["mypy -> shim"], symbolic="configuration selectors (names from look-alike pools)"),
     ]
